@@ -357,8 +357,10 @@ func evalStr(frag string, e Env) (string, bool) {
 	case "v":
 		return "vv", true
 	}
-	if strings.HasPrefix(frag, "w") {
-		return e.S1 + "!", true
+	for _, n := range gen.StmtVarNames {
+		if strings.HasPrefix(frag, n) && strings.Trim(frag[len(n):], "0123456789") == "" && len(frag) > len(n) {
+			return e.S1 + "!", true
+		}
 	}
 	if len(frag) >= 2 && strings.HasPrefix(frag, `"`) && strings.HasSuffix(frag, `"`) && !strings.Contains(frag, `\`) {
 		return frag[1 : len(frag)-1], true // a Go string literal without escapes
